@@ -546,8 +546,8 @@ func (x *TopicsIndex) scanMessages(filter string, d int, n *particle, pks []pack
 	key, hasNext := isolateParticle(filter, d)
 	if key == "+" || key == "#" || d == -1 {
 		for _, adjacent := range n.particles.getAll() {
-			if d == 0 && adjacent.key == SysPrefix {
-				continue
+			if d == 0 && strings.HasPrefix(adjacent.key, "$") {
+				continue // top-level wildcards do not match topics beginning with $ [MQTT-4.7.2-1]
 			}
 
 			if !hasNext {
